@@ -259,7 +259,7 @@ def chunk_sizes(**sizes):
               "mokapot.parsers.pin", "mokapot.constants"):
         mk(m)
     saved = []
-    unknown = set(sizes) - set(CHUNK_CONSTANTS)
+    unknown = set(sizes) - set(CHUNK_CONSTANTS) - set(extra_chunk_constants())
     if unknown:
         raise KeyError(unknown)
     for modname, mod in list(sys.modules.items()):
@@ -274,6 +274,23 @@ def chunk_sizes(**sizes):
     finally:
         for mod, k, v in saved:
             setattr(mod, k, v)
+
+
+_EXTRA = None
+
+
+def extra_chunk_constants():
+    """Integer tunables present in mokapot.constants of the tree under test that this machinery does not know by
+    name (added after it was written). Discovered at run time so that metamorphic monitors (results must not depend
+    on a chunk size) also cover them; history-replay monitors never patch them."""
+    global _EXTRA
+    if _EXTRA is None:
+        try:
+            c = mk("mokapot.constants")
+            _EXTRA = sorted(k for k, v in vars(c).items() if k.isupper() and type(v) is int and k not in CHUNK_CONSTANTS)
+        except Exception:  # noqa: BLE001
+            _EXTRA = []
+    return list(_EXTRA)
 
 
 def repo_state() -> dict:
